@@ -28,6 +28,16 @@ class _Default:
 DEFAULT = _Default()
 
 
+class _Unknown:
+    """Value after a transformation of the tracked name that cannot be folded (e.g. passed through a helper)."""
+
+    def __repr__(self):
+        return "<unknown>"
+
+
+UNKNOWN = _Unknown()
+
+
 def _hashable(v):
     if isinstance(v, list):
         return tuple(_hashable(x) for x in v)
@@ -48,7 +58,7 @@ def param_value_flow(fi: FuncInfo, name: str, init_values: Iterable, stop: Calla
         # values travel boxed as ("v", value): explore() treats a bare None as "stop this path"
         def env_of(val):
             e = dict(other_env)
-            if val is not DEFAULT:
+            if val is not DEFAULT and val is not UNKNOWN:
                 e[name] = val
             return e
 
@@ -66,7 +76,7 @@ def param_value_flow(fi: FuncInfo, name: str, init_values: Iterable, stop: Calla
                 try:
                     return ("v", _hashable(q.fold(st.value, env_of(val))))
                 except Exception:
-                    return ("v", DEFAULT)
+                    return ("v", UNKNOWN if name in q.names_in(st.value) else DEFAULT)
             if n.kind == "for" and name in q.names_in(n.ast.target):
                 return ("v", DEFAULT)
             return box
@@ -74,7 +84,7 @@ def param_value_flow(fi: FuncInfo, name: str, init_values: Iterable, stop: Calla
         def edge(n, kind, box):
             val = box[1]
             names = q.names_in(n.ast) if n.kind == "test" else set()
-            if n.kind == "test" and kind in ("true", "false") and names and names <= (set(other_env) | {name}) and (val is not DEFAULT or name not in names):
+            if n.kind == "test" and kind in ("true", "false") and names and names <= (set(other_env) | {name}) and ((val is not DEFAULT and val is not UNKNOWN) or name not in names):
                 try:
                     truth = bool(q.fold(n.ast, env_of(val)))
                 except Exception:
@@ -96,6 +106,8 @@ def check_default_only_for_none(ck, rule: str, fi: FuncInfo, name: str, legal_va
         n += 1
         if not got:
             raise AnalysisError("%s: %s=%r never reaches the use site (flow not understood)" % (fi.qualname, name, init))
+        if UNKNOWN in got:
+            raise AnalysisError("%s: %s passes through an expression that cannot be folded (helper call?) before its use" % (fi.qualname, name))
         ck.ob(rule, fi, node if node is not None else fi.node, got == {init},
               "%s: the caller's value %s=%r reaches its use unchanged (a default may replace None only); got %s" % (what, name, init, sorted(map(repr, got))),
               construct="%s=%r preserved%s" % (name, init, "" if not other_env else " with " + ",".join("%s=%r" % kv for kv in sorted(other_env.items()))))
